@@ -36,6 +36,10 @@ type c08Resume struct {
 	// HalfOpenMs: the exchange that this resume follows stays attached, from the server's point of view, for this
 	// long after the client abandoned it (0: the server notices at once). Resumes answered 409 are repeated.
 	HalfOpenMs int `json:"half_open_ms,omitempty"`
+	// Fresh (standalone stream only): the GET carries no Last-Event-ID although events have been received (a client
+	// that lost its cursor, a second window). What it is served is not fixed by a resume point, but every id it sees
+	// must denote the message the store holds at that index, and later resumes from those ids must be exact.
+	Fresh bool `json:"fresh,omitempty"`
 }
 
 type c08Spec struct {
@@ -66,6 +70,10 @@ func genC08(r *vh.Rand) c08Spec {
 			rs.Back = r.Range(1, 3)
 		}
 		s.Resumes = append(s.Resumes, rs)
+	}
+	if s.Stream == "standalone" && r.Chance(1, 3) {
+		s.Resumes[r.Intn(len(s.Resumes))].Fresh = true
+		s.Resumes = append(s.Resumes, c08Resume{GapMs: r.Intn(25), CutMs: r.Intn(40)}) // and a resume from what that brought
 	}
 	if r.Chance(1, 5) {
 		for i := range s.Resumes {
@@ -478,6 +486,14 @@ func runC08(c *vh.Case, spec c08Spec) {
 		}
 		last := seenIDs[len(seenIDs)-1]
 		leid := last
+		if rs.Fresh && spec.Stream == "standalone" {
+			followed = false
+			c.Count("fresh_gets_on_a_stream_with_history", 1)
+			ex := exchange("GET", "", "", rs.CutMs)
+			exs = append(exs, ex)
+			note(ex)
+			continue
+		}
 		if rs.Back > 0 {
 			_, li, _ := parseEID(last)
 			b := min(rs.Back, li)
